@@ -1398,15 +1398,21 @@ def classify(case):
             return sig(cur)
         cur = nxt
     fixes = list(spec.get("fix", ()))
+    cur_f = f
     for fix, pred, sig in CHAIN:
+        # is the class (still) in the construct, as the fixes applied so far have left it?
         try:
-            present = bool(pred(f))
+            present = bool(pred(cur_f))
         except Exception:
             present = False
         if not present:
             continue
         fixes = fixes + [fix]
         spec2 = dict(spec2, fix=fixes)
+        try:
+            cur_f = GEN.build(spec2)
+        except Exception:
+            return None
         try:
             nxt = _oracle_of(spec2, opts2)
         except Exception:
